@@ -104,6 +104,8 @@ N=[ # neutral edits: every check must stay at exit 0
  ("spice/spice.go","func (m *Melange) copyFrom(c Melange) {\n	m.Currency = c.Currency\n	m.SupplementaryCurrency = c.SupplementaryCurrency\n}","func (m *Melange) copyFrom(c Melange) {\n	m.SupplementaryCurrency = c.SupplementaryCurrency\n	m.Currency = c.Currency\n}","reorder two independent stores"),
  ("notaryserver/notary.server.go","func (s *server) Propose(ctx context.Context, in *protobufcompiled.Transaction) (*emptypb.Empty, error) {\n	t := time.Now()","func (s *server) Propose(ctx context.Context, in *protobufcompiled.Transaction) (*emptypb.Empty, error) {\n	defer func() {\n		s.log.Debug(\"propose endpoint done\")\n	}()\n	t := time.Now()","a new deferred func literal in front of the others (closure ordinals shift)"),
  ("accountant/accountant.go","	fm := newFoundsMemMap()\n","	logStep := func(msg string) { ab.log.Info(msg) }\n	logStep(\"truncate: carrying the previous checkpoint over\")\n	fm := newFoundsMemMap()\n","a new closure in front of truncate's callbacks (closure ordinals shift)"),
+ ("accountant/accountant.go","	visited := make(map[string]struct{})\n	spiceOut := spice.New(0, 0)","	for _, h := range [][32]byte{leaf.LeftParentHash, leaf.RightParentHash} {\n		if h == leaf.Hash {\n			ab.log.Warn(\"leaf names itself as a parent\")\n		}\n	}\n	visited := make(map[string]struct{})\n	spiceOut := spice.New(0, 0)","a new loop in front of a loop that carries invariants (loop ordinals shift) in validateLeaf"),
+ ("accountant/accountant.go","	var i int\n	for _, item := range ab.dag.GetLeaves() {","	var i int\n	for n := 0; n < 2; n++ {\n		_ = n\n	}\n	for _, item := range ab.dag.GetLeaves() {","a new loop in front of getValidLeaves' loop (ordinals shift)"),
  ("accountant/replier.go","	maxArraySize = 500","	maxArraySize = 600","a larger orphan buffer (the property asks for a bound, not for 500)"),
  ("accountant/replier.go","	maxRepeats   = 25","	maxRepeats   = 40","more retries (still bounded)"),
  ("accountant/accountant.go","	truncateDiff       uint64 = 1_000","	truncateDiff       uint64 = 1_500","a deeper cut for truncation"),
@@ -126,6 +128,11 @@ N3=[ # neutral edits by regular expression inside one function: (file, unique an
  ("gossip/gossip.go","func (g *gossiper) verifyGossipers(",r"\bmember\b","entry","rename a range variable (verifyGossipers: member -> entry)"),
  ("spice/spice.go","func Transfer(",r"\bamount\b","amt","rename a parameter (Transfer: amount -> amt)"),
  ("notaryserver/notary.server.go","func (s *server) Confirm(",r"\btrx\b","confirmed","rename a local (Confirm: trx -> confirmed)"),
+]
+N4=[ # neutral renames across files: (files, regex, replacement, description)
+ (["accountant/founds.go","accountant/accountant.go"],r"\bpourFunds\b","pourVertexFunds","rename a function under contract that event patterns name (pourFunds)"),
+ (["accountant/storage.go","accountant/accountant.go"],r"\bsaveTrxInVertex\b","indexTransaction","rename a method under contract that event patterns name (saveTrxInVertex)"),
+ (["gossip/gossip.go"],r"\bverifyGossipers\b","verifiedGossipers","rename a method under contract (verifyGossipers)"),
 ]
 def mk(kind, name, f, old, new, within=None):
     p=os.path.join(REPO,'src',f)
@@ -185,5 +192,14 @@ for j,(f,anchor,rx,repl,desc) in enumerate(N3):
     subprocess.run(['git','-C',REPO,'checkout','--','src/'+f])
     open('/verif/selftest/neutral/'+name+'.patch','w').write(d)
     nm.append({"name":name,"what":desc,"file":f})
+k=len(N)+len(N2)+len(N3)
+for j,(files,rx,repl,desc) in enumerate(N4):
+    name="neutral-%d"%(k+j+1)
+    for f in files:
+        p=os.path.join(REPO,'src',f); txt=open(p).read(); open(p,'w').write(re.sub(rx,repl,txt))
+    d=subprocess.run(['git','-C',REPO,'diff','--','src'],capture_output=True,text=True).stdout
+    for f in files: subprocess.run(['git','-C',REPO,'checkout','--','src/'+f])
+    open('/verif/selftest/neutral/'+name+'.patch','w').write(d)
+    nm.append({"name":name,"what":desc,"file":files[0]})
 json.dump(nm,open('/verif/selftest/neutral/INDEX.json','w'),indent=1)
 print(len(meta),"mutants",len(nm),"neutral")
